@@ -76,7 +76,11 @@ WrapfV(e, parts, sl) ==
 TagStr(x) == IF x = <<"NILV">> THEN <<>> ELSE IF x # <<>> /\ x[1] = "SAFEV" THEN Tail(x) ELSE x
 TagStrs(a) == [i \in 1..Len(a) |-> IF i % 2 = 0 THEN TagStr(a[i]) ELSE a[i]]
 
-NamedDomain(n) == <<"L_domain", "QT">> \o n \o <<"QT">>
+\* domains.EnsureNotInDomain(err, constructor, forbidden...): st.a lists the forbidden
+\* domains (<<"NODOM">> stands for NoDomain), st.s names the domain the constructor
+\* (HandledInDomain) moves the error to
+ForbiddenDom(x) == IF x = <<"NODOM">> THEN <<"L_NoDomain">> ELSE NamedDomain(x)
+EnsureTriggers(st, e) == ~IsNil(e) /\ \E i \in 1..Len(st.a) : DomainOf(e) = ForbiddenDom(st.a[i])
 
 RECURSIVE DropNils(_)
 DropNils(vs) == IF vs = <<>> THEN <<>>
@@ -122,6 +126,8 @@ Build(st, sl, rg) ==
     [] st.op = "HandledWithMessage" -> Barrier(e, st.s)
     [] st.op = "HandledInDomain" -> W1("withDomain", NamedDomain(st.s), <<>>, Barrier(e, Text(e)))
     [] st.op = "HandledInDomainWithMessage" -> W1("withDomain", NamedDomain(st.a[1]), <<>>, Barrier(e, st.s))
+    [] st.op = "EnsureNotInDomain" ->
+         IF EnsureTriggers(st, e) THEN W1("withDomain", NamedDomain(st.s), <<>>, Barrier(e, Text(e))) ELSE e
     [] st.op = "HandleAsAssertionFailure" ->
          W1("withAssertionFailure", <<>>, <<>>, WStack(Barrier(e, Text(e))))
     [] st.op = "NewAssertionErrorWithWrappedErrf" ->
@@ -240,7 +246,14 @@ ExtraS(st, sl, tn) ==
    THEN UNION {WordsIn(Ext(Chain(sl[st.src[2]])[i])) : i \in 1..Len(Chain(sl[st.src[2]]))} ELSE {})
   \cup (IF st.op = "WithSafeDetails" THEN UNION {tn[i].s : i \in PartRefs(st.parts)} ELSE {})
 
+\* (EnsureNotInDomain is HandledInDomain when it triggers, the identity otherwise)
+RECURSIVE TaintOf(_, _, _, _)
 TaintOf(st, sl, tn, res) ==
+  IF st.op = "EnsureNotInDomain"
+  THEN TaintOf([st EXCEPT !.op = IF EnsureTriggers(st, sl[st.src[1]]) THEN "HandledInDomain" ELSE "Copy", !.a = <<>>,
+                          !.s = IF EnsureTriggers(st, sl[st.src[1]]) THEN st.s ELSE <<>>],
+               sl, tn, res)
+  ELSE
   IF IsNil(res) \/ st.op \in {"Clear", "DecodeFault", "DecodeFuzz", "StackCall"} THEN NoTaint
   ELSE LET src == Sources(st) IN
        [u |-> StepU(st, sl) \cup UNION {tn[i].u : i \in src},
@@ -262,7 +275,7 @@ ConstructorOps ==
    "WithDetail", "WithSafeDetails", "WithTelemetry", "WithDomain", "WithIssueLink",
    "WithContextTags", "WithAssertionFailure", "Mark", "WithSecondaryError", "CombineErrors",
    "Handled", "Opaque", "HandledWithMessage", "HandledInDomain", "HandledInDomainWithMessage",
-   "HandleAsAssertionFailure", "NewAssertionErrorWithWrappedErrf", "WrapWithHTTPCode",
+   "EnsureNotInDomain", "HandleAsAssertionFailure", "NewAssertionErrorWithWrappedErrf", "WrapWithHTTPCode",
    "WrapWithGrpcCode", "GoWrap", "PkgWithMessage", "PkgWithStack", "PkgWrap", "OsPathError",
    "OsLinkError", "OsSyscallError", "UWrap", "Join", "JoinPkg", "GoJoin", "GoWrap2", "UMulti", "Hop",
    "Copy", "Clear", "DecodeFault", "DecodeFuzz", "StackCall", "GrpcStatus", "Grpc"}
